@@ -110,7 +110,7 @@ func runC06(cfg *config) *Report {
 	for i := 0; i < n; i++ {
 		// every fifth file also carries bundles in the file's own Bundles member (JSON "bundle"): no cash letter holds
 		// them and the Writer never emits them, so no control record may count them
-		f, err := genFile(r, genOpts{maxCL: 3, maxBundles: 3, maxItems: 4, mutateP: 20, fileBundles: i%5 == 2})
+		f, err := genFile(r, genOpts{maxCL: 3, maxBundles: 3, maxItems: 4, mutateP: 20, fileBundles: i%5 == 2, alphaSeq: i%4 == 3})
 		if err != nil {
 			rep.count("gen-rejected")
 			continue
